@@ -23,6 +23,11 @@ type C06Params struct {
 	// Updates (DTLS 1.3 only): after the arrival sequence the sender updates its keys this many
 	// times, then every record that was accepted is presented once more
 	Updates int `json:"updates,omitempty"`
+	// Boundary: before the K records are written the sender's record number is advanced (in
+	// steps of at most 30000, one delivered record after each, as if the records in between had
+	// been lost) so that the K records straddle Boundary x 2^16; BoundaryOff of them lie before it
+	Boundary    int `json:"boundary,omitempty"`
+	BoundaryOff int `json:"boundary_off,omitempty"`
 }
 
 var c06Windows = []int{1, 2, 3, 64}
@@ -87,7 +92,10 @@ func c06Gen(r *rand.Rand, tier string, idx int) any {
 	}
 	p.Size = []int{0, 1, 16, 100, 1000}[r.IntN(5)]
 	if c, _ := dataCfgByName(p.Cfg); c.C.MaxVer == 13 && r.IntN(2) == 0 {
-		p.Updates = 1 + r.IntN(3)
+		p.Updates = 1 + r.IntN(6)
+	}
+	if r.IntN(4) == 0 {
+		p.Boundary, p.BoundaryOff = 1+r.IntN(2), r.IntN(p.K+1)
 	}
 	// arrival: identity with displaced and duplicated records, displacement around W
 	type slot struct {
@@ -147,6 +155,37 @@ func c06Run(rc *RunCtx, params any) {
 	rd := pair.StartReader("s")
 	// let post-handshake traffic (tickets, ACKs) drain
 	s.Run(func() bool { return false }, 5*time.Second)
+	if p.Boundary > 0 {
+		epoch := dtls.VerifSessionOf(pair.Client).LocalEpoch
+		seqs := dtls.VerifLocalSeq(pair.Client)
+		cur := uint64(0)
+		if int(epoch) < len(seqs) {
+			cur = seqs[epoch]
+		}
+		target := uint64(p.Boundary)<<16 - uint64(p.BoundaryOff)
+		for k := 0; cur < target; k++ {
+			step := min(uint64(30000), target-cur)
+			dtls.VerifSkipLocalSeq(pair.Client, step)
+			cur += step
+			if cur >= target {
+				break
+			}
+			before := len(rd.Got)
+			if err := pair.WriteSync("c", Payload("c", 9, k, 12), 10*time.Second); err != nil {
+				rc.Violate("harness-write", "filler write failed: %v", err)
+
+				return
+			}
+			cur++
+			if !s.Run(func() bool { return len(rd.Got) > before }, 5*time.Second) {
+				rc.Violate("lost-after-gap", "after a gap of %d record numbers (indistinguishable from that many lost records) a record was not delivered on a loss-free link", step)
+
+				return
+			}
+		}
+		rd.Got, rd.GotSeq = nil, nil
+		s.Probe(fmt.Sprintf("records-straddle-%dx2^16", p.Boundary))
+	}
 	n.Capture = map[string]bool{"c": true}
 	var payloads [][]byte
 	for i := 0; i < p.K; i++ {
